@@ -17,12 +17,14 @@ structure ArchOK (root : P) (ok : Entry → Prop) (es : List Entry) : Prop where
   compat : es.Pairwise (Compat root)
   links : LinksOK root es
 
-/-- an existing, empty destination directory in a well-formed tree (every node's parent is a directory — so the
-    ancestors of the destination are real directories — and every file node has an inode) -/
+/-- an empty destination: the destination is an existing directory or does not exist yet, nothing exists below it,
+    and every ancestor of it that exists is a real directory — in a well-formed tree (every node's parent is a
+    directory; every file node has an inode) -/
 structure EmptyDst (root : P) (fs : FS) : Prop where
   wf : WF fs
   ino : InoOK fs
-  dst : ∃ m, fs.get root = some (.dir m)
+  dst : fs.get root = none ∨ ∃ m, fs.get root = some (.dir m)
+  anc : ∀ j, 1 ≤ j → j < root.length → fs.get (root.take j) = none ∨ ∃ m, fs.get (root.take j) = some (.dir m)
   empty : ∀ q, Below root q → fs.get q = none
 
 /-- the tree `fs'` below the root is exactly the tree the archive `es` records.
@@ -40,10 +42,19 @@ structure Exact (root : P) (mask : Nat) (es : List Entry) (fs' : FS) : Prop wher
   implied : ∀ l1 e l2, es = l1 ++ e :: l2 → ∀ q, Below root q → q <+: e.path root → q ≠ e.path root →
     (∀ e' ∈ l1, ¬ q <+: e'.path root) → fs'.get q = some (.dir (pmode e &&& mask))
   regs : es.Pairwise (fun a b => a.kind = .reg → b.kind = .reg → fs'.get (a.path root) ≠ fs'.get (b.path root))
+  rootdir : es ≠ [] → root ≠ [] → ∃ m, fs'.get root = some (.dir m)
 
 theorem Inv.toExact {root : P} {mask : Nat} {fs' : FS} {es : List Entry} (h : Inv root mask fs' es) :
     Exact root mask es fs' := by
-  refine ⟨h.present, fun q hq => ⟨fun hne => ?_, fun ⟨e, he, hpre⟩ => ?_⟩, h.implied, h.regs⟩
+  refine ⟨h.present, fun q hq => ⟨fun hne => ?_, fun ⟨e, he, hpre⟩ => ?_⟩, h.implied, h.regs, ?_⟩
+  rotate_left 2
+  · intro hes hroot
+    cases es with
+    | nil => exact absurd rfl hes
+    | cons e es =>
+      have hb := h.below e (by simp)
+      obtain ⟨n, hn, _⟩ := h.present e (by simp)
+      exact wf_prefix_dir' fs' h.wf _ root n hn hb.prefix hb.ne.symm hroot
   · cases hg : fs'.get q with
     | none => exact absurd hg hne
     | some n => exact h.exact q hq n hg
@@ -54,7 +65,7 @@ theorem Inv.toExact {root : P} {mask : Nat} {fs' : FS} {es : List Entry} (h : In
       rw [hm]; simp
 
 theorem EmptyDst.inv {root : P} {fs : FS} (h : EmptyDst root fs) (mask : Nat) : Inv root mask fs [] :=
-  Inv.init root mask fs h.wf h.ino h.dst h.empty
+  Inv.init root mask fs h.wf h.ino h.dst h.anc h.empty
 
 theorem tar_exact (root : P) (hr : GoodPath root) (mask : Nat) (es : List Entry) (fs : FS) (hd : EmptyDst root fs)
     (ha : ArchOK root TarEntryOK es) :
@@ -79,6 +90,43 @@ theorem zip_exact (root : P) (hr : GoodPath root) (mask : Nat) (es : List Entry)
     (by simpa using linksOK_of_zip root es (fun e he => (hentry e he).2))
   simp only [List.nil_append] at this
   exact ⟨this.1, this.2.toExact⟩
+
+/-- `Exact` written out -/
+theorem reproduced_spelled (root : P) (mask : Nat) (es : List Entry) (r : FS × Bool) (hok : r.2 = true)
+    (hex : Exact root mask es r.1) {R : Prop} (hroot : R) :
+    r.2 = true ∧
+    (∀ e ∈ es, e.kind = .dir → r.1.get (cleanJoin root e.name) = some (.dir (perm e.mode &&& mask))) ∧
+    (∀ e ∈ es, e.kind = .reg → ∃ ino nd, r.1.get (cleanJoin root e.name) = some (.file ino) ∧
+      r.1.inodes[ino]? = some nd ∧ nd.data = e.data ∧ nd.mode = perm e.mode &&& mask) ∧
+    (∀ e ∈ es, e.kind = .symlink → r.1.get (cleanJoin root e.name) = some (.symlink e.link)) ∧
+    (∀ e ∈ es, e.kind = .link → ∃ ino, r.1.get (cleanJoin root e.name) = some (.file ino) ∧
+      r.1.get (cleanJoin root e.link) = some (.file ino)) ∧
+    (∀ c t, r.1.get (root ++ c :: t) ≠ none ↔ ∃ e ∈ es, (root ++ c :: t) <+: cleanJoin root e.name) ∧
+    (∀ l1 e l2, es = l1 ++ e :: l2 → ∀ c t, (root ++ c :: t) <+: cleanJoin root e.name →
+      root ++ c :: t ≠ cleanJoin root e.name → (∀ e' ∈ l1, ¬ (root ++ c :: t) <+: cleanJoin root e'.name) →
+      r.1.get (root ++ c :: t) = some (.dir ((if e.kind = .dir then perm e.mode else 0o755) &&& mask))) ∧
+    es.Pairwise (fun a b => a.kind = .reg → b.kind = .reg →
+      r.1.get (cleanJoin root a.name) ≠ r.1.get (cleanJoin root b.name)) ∧
+    (es ≠ [] → root ≠ [] → ∃ m, r.1.get root = some (.dir m)) ∧ R := by
+  refine ⟨hok, ?_, ?_, ?_, ?_, ?_, ?_, hex.regs, hex.rootdir, hroot⟩
+  · intro e he hk
+    obtain ⟨n, hn, hnode⟩ := hex.present e he
+    rw [hn, hnode.2.1 hk]
+  · intro e he hk
+    obtain ⟨n, hn, hnode⟩ := hex.present e he
+    obtain ⟨ino, nd, h1, h2, h3, h4⟩ := hnode.1 hk
+    exact ⟨ino, nd, by rw [hn, h1], h2, h3, h4⟩
+  · intro e he hk
+    obtain ⟨n, hn, hnode⟩ := hex.present e he
+    rw [hn, hnode.2.2.1 hk]
+  · intro e he hk
+    obtain ⟨n, hn, hnode⟩ := hex.present e he
+    obtain ⟨ino, h1, h2⟩ := hnode.2.2.2 hk
+    exact ⟨ino, by rw [hn, h1], h2⟩
+  · intro c t
+    exact hex.only _ ⟨c, t, rfl⟩
+  · intro l1 e l2 hdec c t h1 h2 h3
+    exact hex.implied l1 e l2 hdec _ ⟨c, t, rfl⟩ h1 h2 h3
 
 /-! ### decidable forms of the hypotheses (used to show they are satisfiable on concrete archives) -/
 
